@@ -16,20 +16,15 @@
      env_ok num rho G V    every name bound in G has a value in V, and its bit symbols evaluate
                            under rho to the bits of that value
      env_canon G           every binding carries the bit names its type gives (translate_argument)
-     sub_ne G e            no subscript in e selects an EMPTY tuple component.  The one thing left of
-                           the subscript defects: `u[0]` with u = ((), a) is still (Tuple[()],
-                           Symbol("u.0")), ONE fabricated symbol for a value without bits, so
-                           `t = (u[0], q); return t[1]` (q: Qint[2]) reads free symbols
      env_good G            no bound type has a sized component of fewer than 2 bits (ty_good; every
                            shipped sized type has at least 2 bits; a one-bit sized NAME would
                            evaluate to a bare Symbol).  Tuples of any length, the empty one
-                           included, are fine (fixes 861badb, 4042692)
+                           included, are fine (fixes 861badb, 4042692, fccfe9a)
      wf_res r              the translated value is shaped as its type: a bool is a bare expression, a
                            sized value a flat list
-     stmt_guard, body_guard   the decidable side conditions left on statements (evaluated on every
-                           program of the correspondence run): sub_ne of the statement's expression,
-                           and no definition of a statement reads a symbol an earlier definition
-                           of the SAME statement assigns (seq_ok)
+     stmt_guard, body_guard   the ONE decidable side condition left on statements (evaluated on every
+                           program of the correspondence run): no definition of a statement reads a
+                           symbol an earlier definition of the SAME statement assigns (seq_ok)
      forall a b, num a = num b -> a = b     the numbering of bit names is injective (enc is)
    A result None of the model is "the Python code raises". *)
 From Coq Require Import List Bool NArith ZArith Arith.
@@ -39,7 +34,7 @@ Local Open Scope N_scope.
 
 (* ---------------- expressions: ALL constructors ---------------- *)
 Theorem C01x_trans_exp_sound : forall num rho G V e r v,
-  env_ok num rho G V -> env_canon G -> sub_ne G e = true ->
+  env_ok num rho G V -> env_canon G ->
   trans_exp num G e = Some r -> eval_exp V e = Some v -> den rho r = Some v.
 Proof. exact trans_exp_sound. Qed.
 Print Assumptions C01x_trans_exp_sound.
@@ -47,7 +42,7 @@ Print Assumptions C01x_trans_exp_sound.
 (* the translated type is the type of the value, the value is shaped as its type, and its type
    has no one-bit sized component *)
 Theorem C01x_trans_exp_type : forall num rho G V e r v,
-  env_ok num rho G V -> env_canon G -> env_good G -> sub_ne G e = true ->
+  env_ok num rho G V -> env_canon G -> env_good G ->
   trans_exp num G e = Some r -> eval_exp V e = Some v ->
   type_of v = fst r /\ length (flat (snd r)) = ty_size (fst r) /\ wf_res r /\ ty_good (fst r) = true.
 Proof. exact trans_exp_type. Qed.
@@ -64,12 +59,12 @@ Definition exe : pexp :=
             (EName 2%nat).
 
 Example C01x_trans_exp_ex :
-  env_ok exnum exrho exG exV /\ env_canon exG /\ sub_ne exG exe = true
+  env_ok exnum exrho exG exV /\ env_canon exG
   /\ (exists r, trans_exp exnum exG exe = Some r /\ fst r = TBool)
   /\ eval_exp exV exe = Some (VB false)          (* ((3 widened to 4 bits) + 1) * 2 = 8 at 8 bits; 8 > 9 is false *)
   /\ option_map (den exrho) (trans_exp exnum exG exe) = Some (Some (VB false)).
 Proof.
-  split; [|split; [apply arg_env_canon|split; [reflexivity|]]].
+  split; [|split; [apply arg_env_canon|]].
   - apply (arg_env_ok exnum exrho [(1%nat, TQint 2); (2%nat, TQint 4); (3%nat, TBool)] [VI 2 3; VI 4 9; VB true]).
     repeat constructor.
   - repeat split; try (vm_compute; reflexivity). eexists. split; vm_compute; reflexivity.
@@ -89,7 +84,7 @@ Proof. split; [apply arg_env_ib|]; reflexivity. Qed.
 
 (* ---------------- statements ---------------- *)
 (* ONE statement.  Hypotheses: an injective numbering; the environment invariants; a declared
-   return type without one-bit sized components; stmt_guard = sub_ne and seq_ok *)
+   return type without one-bit sized components; stmt_guard = seq_ok *)
 Theorem C01x_trans_stmt_sound : forall num, (forall a b, num a = num b -> a = b) ->
   forall rho G V rt s ds G' V',
   env_ok num rho G V -> env_canon G -> env_good G -> ty_good rt = true ->
@@ -211,21 +206,23 @@ Print Assumptions C01x_rejects_operators.
 (* a subscript may select ANY element, a whole tuple-typed one included (`a[0]` of
    a: Tuple[Tuple[bool, Qint[2]], bool]): no side condition on subscripts is left *)
 Theorem C01x_subscript_of_tuple_sound : forall num rho G V x p r v,
-  env_ok num rho G V -> env_canon G -> sub_ne G (ESub x p) = true ->
+  env_ok num rho G V -> env_canon G ->
   trans_exp num G (ESub x p) = Some r -> eval_exp V (ESub x p) = Some v ->
   den rho r = Some v /\ type_of v = fst r.
 Proof. exact subscript_of_tuple_sound. Qed.
 Print Assumptions C01x_subscript_of_tuple_sound.
 
-(* ... except an EMPTY one: soundness is false without sub_ne *)
-Theorem C01x_subscript_of_empty_refuted :
-  exists num rho G V e r v, env_ok num rho G V /\ env_canon G /\
-    trans_exp num G e = Some r /\ eval_exp V e = Some v /\ den rho r <> Some v /\ sub_ne G e = false.
-Proof. exact subscript_of_empty_refuted. Qed.
-Print Assumptions C01x_subscript_of_empty_refuted.
+(* ... an EMPTY one included since fccfe9a: `u[0]` of u: Tuple[Tuple[()], bool] has no bits *)
+Example C01x_subscript_of_empty_ex :
+  let args := [(1%nat, TTuple [TTuple []; TBool])] in
+  env_ok enc (fun _ => true) (arg_env args) [(1%nat, VT [VT []; VB true])] /\ env_canon (arg_env args)
+  /\ trans_exp enc (arg_env args) (ESub 1%nat [0%nat]) = Some (TTuple [], Nd [])
+  /\ eval_exp [(1%nat, VT [VT []; VB true])] (ESub 1%nat [0%nat]) = Some (VT [])
+  /\ den (fun _ => true) (TTuple [], Nd []) = Some (VT []).
+Proof. exact subscript_of_empty_ex. Qed.
 
 Example C01x_subscript_of_tuple_ex :
-  env_ok ex_sub_num ex_sub_rho ex_sub_G ex_sub_V /\ env_canon ex_sub_G /\ sub_ne ex_sub_G (ESub 1%nat [0%nat]) = true
+  env_ok ex_sub_num ex_sub_rho ex_sub_G ex_sub_V /\ env_canon ex_sub_G
   /\ eval_exp ex_sub_V (ESub 1%nat [0%nat]) = Some (VT [VB true; VI 2 1])
   /\ option_map (den ex_sub_rho) (trans_exp ex_sub_num ex_sub_G (ESub 1%nat [0%nat])) = Some (Some (VT [VB true; VI 2 1])).
 Proof.
@@ -265,7 +262,7 @@ Print Assumptions C01x_seq_ok_needed_refuted.
 
 (* "every accepted program has a meaning" is false: Qint ^ Qchar; `return 'a'` declared Qint[2] *)
 Theorem C01x_accepted_without_meaning_refuted :
-  (exists num rho G V e r, env_ok num rho G V /\ env_canon G /\ sub_ne G e = true /\
+  (exists num rho G V e r, env_ok num rho G V /\ env_canon G /\
      trans_exp num G e = Some r /\ eval_exp V e = None)
   /\ (exists num args rt body lf, trans_fun num args rt body = Some lf /\
         forall vs, eval_fun args rt body vs = None).
